@@ -1,5 +1,10 @@
 #!/usr/bin/env python3
-"""Try mutations of the library in the scratch worktree /tmp/c18mut and run the C18 check on each."""
+"""Try mutations of the library in the scratch worktree /tmp/c18mut and run the C18 check on each.
+Prepare the scratch checkout first (never mutate /repo itself):
+    git -C /repo worktree add --detach /tmp/c18mut HEAD
+and remove it afterwards:
+    git -C /repo worktree remove --force /tmp/c18mut ; rm -rf harness/target-*
+Usage: python3 tools/c18_mutate.py [mutation names...]   (no name = all)"""
 import json, os, shutil, subprocess, sys, time
 
 MUT = "/tmp/c18mut"
